@@ -16,6 +16,7 @@ import Driver.GroupChk
 import Driver.SemaChk
 import Driver.OnceChk
 import Driver.ApplyChk
+import Driver.SourceChk
 /-! `dvdriver`: line-protocol driver over the Lean models — the same definitions the theorems are about.
     One operation per line in, one canonical result per line out; the C harnesses answer the same lines with
     the real library and the check diffs the two streams. -/
@@ -239,4 +240,5 @@ def main (args : List String) : IO UInt32 := do
   | "sema" :: paths => SemaChk.main paths
   | "once" :: paths => OnceChk.main paths
   | "apply" :: paths => ApplyChk.main paths
+  | "source" :: paths => SourceChk.main paths
   | _ => loop (← IO.getStdin) (← IO.getStdout); return 0
